@@ -152,9 +152,10 @@ def main(argv):
         if hasattr(mod, 'controls'):
             mod.controls(ctx)
         if not ctx.violations:
-            ctx.finish_floors()     # a reported violation is a verdict; floors guard silent passes
             if ctx.pending:
+                # the undecided construct is the informative part (a floor usually falls short BECAUSE a rule stopped there)
                 raise NoVerdict('; '.join(ctx.pending))
+            ctx.finish_floors()     # a reported violation is a verdict; floors guard silent passes
         else:
             for p_ in ctx.pending:
                 ctx.note('partial run: %s' % p_)
